@@ -144,3 +144,33 @@ Definition spec_a2l_fixup (tab : list sym) (addr : Z) (stack out : list string) 
     existsb (fun r => spec_addr_info tab addr r && strs_eqb out (a2l_apply_nm r stack))
             (None :: map (fun s => Some (sy_name s)) tab)
   else true.
+
+(* ---------------- sessions: one Binutils, many objects ---------------- *)
+(* the addresses asked of handle h, in order, and the answers they got *)
+Fixpoint addrs_of (h : nat) (evs : list sev) : list Z :=
+  match evs with
+  | [] => []
+  | SAddr h' a :: r => if (h' =? h)%nat then a :: addrs_of h r else addrs_of h r
+  | _ :: r => addrs_of h r
+  end.
+
+Fixpoint answers_of (h : nat) (evs : list sev) (obs : list sobs) : list (res Z) :=
+  match evs, obs with
+  | SAddr h' _ :: r, o :: ro =>
+      if (h' =? h)%nat
+      then (match o with OAddr x => x | _ => Err 99 end) :: answers_of h r ro
+      else answers_of h r ro
+  | _ :: r, _ :: ro => answers_of h r ro
+  | _, _ => []
+  end.
+
+(* The statement does not mention histories: the object returned by an Open whose mapping was made
+   by the loader at [bias] must translate its addresses to address - bias (or an error; no error
+   when the owner is identifiable) WHATEVER else was done with the Binutils before or in between.
+   [m] = the mapping given to that Open, [ef] = the file it named. *)
+Definition spec_handle (ef : elf) (bias : Z) (m : emap) (addrs : list Z) (rs : list (res Z)) : bool :=
+  spec_obj_addr_seq ef bias m addrs rs &&
+  match addrs, rs with
+  | a0 :: _, r0 :: _ => spec_obj_addr_live ef bias m a0 r0
+  | _, _ => true
+  end.
